@@ -168,6 +168,22 @@ def _specs_wc(tier):
                      G.specs(tier, max_books=2, wholecols=True, max_cells=9).filter(_has_wc))
 
 
+def _wide_specs():
+    """Fixed shapes (added after seed c13-b-r3): an array formula whose area crosses the Z/AA (and ZZ/AAA) column border, with
+    cached values stored in its non-anchor cells, read cell by cell and as a whole; plain cells around the border."""
+    out = []
+    for c0 in (25, 701):
+        cells = [{'at': [0, 0, 1, c0 + j], 'v': float(j + 1)} for j in range(4)]
+        cells.append({'at': [0, 0, 2, c0], 'f': ['bin', '*', ['rng', [0, 0, 1, c0, 1, c0 + 3]], ['num', 2.0]], 'arr': [2, c0 + 3]})
+        for j in range(4):
+            cells.append({'at': [0, 0, 3 + j, 1], 'f': ['bin', '+', ['ref', [0, 0, 2, c0 + j]], ['num', float(j)]]})
+        cells.append({'at': [0, 0, 7, 1], 'f': ['fn', 'SUM', ['rng', [0, 0, 2, c0, 2, c0 + 3]]]})
+        cells.append({'at': [0, 0, 8, 1], 'f': ['fn', 'SUM', ['rng', [0, 0, 1, c0 + 1, 2, c0 + 2]]]})
+        spec = {'books': [{'name': 'b0.xlsx', 'sheets': ['S1']}], 'cells': cells, 'names': [{'name': 'TOTAL_IN', 'rect': [0, 0, 2, c0 + 1, 2, c0 + 2]}]}
+        out.append({'k': 'spec', 'spec': spec, 'dict_orders': ['asis', 'reversed'], 'files': True})
+    return out
+
+
 STRATEGIES = {'specs': _specs, 'wholecol': _specs_wc}
 WATCHDOG_S = 300
 
@@ -226,6 +242,7 @@ def parts(tier, seed):
     return [
         ('hyp', 'specs', 320 if q else 6000),
         ('hyp', 'wholecol', 8 if q else 320, 1, {'nproc': 8}),
+        ('enum', 'wide-columns', _wide_specs(), 1, False),
         ('custom', 'hashseeds', 'hashseed_batch',
          [{'shard': i, 'n': per, 'hashseeds': [1, 2] if q else [1, 2, 3, 4]} for i in range(shards)]),
     ]
